@@ -1382,10 +1382,6 @@ macro_rules! filter_fixed_harness {
         #[kani::stub(crate::move_generator::targets::Targets::generate_attack_targets, crate::move_generator::targets::Targets::stub_attack)]
         #[kani::stub(::smallvec::SmallVec::append, crate::move_generator::VerifSv::append)]
         fn $name() {
-            if $case == 99 {
-                c01_filter_fixed_promo_pair();
-                return;
-            }
             c01_filter_fixed($case);
         }
     };
@@ -1434,11 +1430,21 @@ fn c01_filter_fixed_promo_pair() {
         assert!(cands[k1 as usize] == e2);
     }
     assert!(raw_eq(&board.verif_raw(), &x));
+    crate::vcover!(k1 && !k2, "first kept, second dropped");
     core::mem::forget(t);
     core::mem::forget(cands);
     core::mem::forget(board);
 }
-filter_fixed_harness!(c01_filter_fixed_promo_pair_b, 99);
+#[kani::proof]
+#[kani::unwind(8)]
+#[kani::stub(::smallvec::SmallVec::reserve_one_unchecked, stub_no_spill)]
+#[kani::stub(::smallvec::SmallVec::spilled, crate::move_generator::verif_never_spilled)]
+#[kani::stub(::smallvec::SmallVec::try_grow, crate::move_generator::verif_no_grow)]
+#[kani::stub(crate::move_generator::targets::Targets::generate_attack_targets, crate::move_generator::targets::Targets::stub_attack)]
+#[kani::stub(::smallvec::SmallVec::append, crate::move_generator::VerifSv::append)]
+fn c01_filter_fixed_promo_pair_b() {
+    c01_filter_fixed_promo_pair();
+}
 
 // ---- smallvec cost probes (experimental; not part of any check) ----------------------------------
 fn sv_probe(which: u8) {
